@@ -71,6 +71,16 @@ CLAIMED.update({
     note='Trusted: shim, z3, connected_components contract (partition into SCCs; numbering unspecified). COO only among sparse formats.',
     ref='DESIGN.md section 8 C11'),
 })
+CLAIMED.update({
+ 'C17': dict(
+    technique='symbolic execution of top_path/paths (Dijkstra widest path) per concrete edge pattern with symbolic positive weights; z3 LRA validity against an enumeration of all simple paths',
+    text='For every edge pattern on 3 nodes (and the acyclic ones on 4), both removal schemes, the real path-finding code runs on symbolic '
+         'positive weights; z3 proves each returned path is simple, source-to-sink, on positive residual edges, its flux is its minimum edge and '
+         'equals the maximum bottleneck over ALL simple source-sink paths, fluxes never increase, their sum stays within the source outflow, the '
+         "path limit and stopping rule are honoured and the caller's matrix is untouched.",
+    note='Trusted: shim, z3. Real arithmetic. Known finding: bottleneck scheme on non-conserved flux over-counts (known_findings.jsonl).',
+    ref='DESIGN.md section 8 C17'),
+})
 PENDING = 'check not built yet in this session (work in progress; see DESIGN.md section 8 for the plan)'
 NA = {}
 
